@@ -167,7 +167,7 @@ func init() {
 			"status 1 and writes no SVG for a rejected program (R-PARSEGATE).",
 		NotDecided:  "That each static check's predicate is right for every program (scope, type and termination predicates are value-level).",
 		Assumptions: []string{"advancePastNL is the only routine that discards more than one token"},
-		Rules:       []*Rule{ruleEOLState, ruleParseGate, ruleTermConj, ruleScopePairParser},
+		Rules:       []*Rule{ruleEOLState, ruleParseGate, ruleTermConj, ruleScopePairParser, ruleListUse},
 	})
 }
 
@@ -189,7 +189,7 @@ func init() {
 			"(R-ACCEPTWRAP); inference of a map literal's type does not depend on Go map order (R-MAPRANGE).",
 		NotDecided:  "The content of accepts/matches/combineTypes (which cells of the matrix are true) and the operand checks' predicates — value-level.",
 		Assumptions: []string{},
-		Rules:       []*Rule{ruleFixed, ruleAcceptWrap, ruleMapRange},
+		Rules:       []*Rule{ruleFixed, ruleAcceptWrap, ruleMapRange, ruleListUse},
 	})
 	Register(&Property{
 		ID: "C06",
@@ -199,7 +199,7 @@ func init() {
 			"node type (R-FIELDCOV/format); every array/map literal node is registered in the layout table on every path that returns it (R-LAYOUTKEY).",
 		NotDecided:  "Token-sequence equality, re-parse equality, comment placement inside multi-line literals, expression re-binding — these need the output text.",
 		Assumptions: []string{},
-		Rules:       []*Rule{ruleEOLState, exhaustRule("format", 25), fieldCovRule("format"), ruleLayoutKey, ruleNoInPlace, ruleIndentPair},
+		Rules:       []*Rule{ruleEOLState, exhaustRule("format", 25), fieldCovRule("format"), ruleLayoutKey, ruleNoInPlace, ruleIndentPair, ruleListUse},
 	})
 }
 
